@@ -184,7 +184,9 @@ def check_config(ctx, idx, c, workers):
     else:
         m, cf = tlc.gen(wd, "MC_TimeStepper", "TimeStepper", consts_of(c), invariants=["TypeOK"] + INVS,
                         properties=PROPS, constraint="ExactOnly")
-    out["design"] = ctx.tlc(m, cf, workers=workers, allow_violation=False, timeout=3000)
+    # quick tier: the design verdict (a self-check of the model, not the property verdict) for the first four
+    # configurations only
+    out["design"] = ctx.tlc(m, cf, workers=workers, allow_violation=False, timeout=3000) if (not ctx.quick or idx < 4) else None
     # (2) the real transition system
     g = real_graph(c, 5000 if ctx.quick else 25000)
     out["graph"] = g
@@ -249,7 +251,7 @@ def judge(ctx, o):
             ctx.drift("", None)
     # spec/real reachable sizes (informational)
     ctx.extra.setdefault("spec_vs_real", []).append(
-        [o["design"].distinct, len(g["nodes"]), ne, len(missing)]) if len(ctx.extra.get("spec_vs_real", [])) < 12 else None
+        [o["design"].distinct if o["design"] else None, len(g["nodes"]), ne, len(missing)]) if len(ctx.extra.get("spec_vs_real", [])) < 12 else None
 
 
 
